@@ -124,7 +124,8 @@ impl FeelNumber {
   }
   ///
   pub fn is_integer(&self) -> bool {
-    dec_is_integer(&self.0)
+    // the value decides, not its representation: 1E+1 and 2.0 are integers (the fractional part of an infinity is NaN)
+    dec_is_zero(&dec_fract(&self.0))
   }
   ///
   pub fn is_one(&self) -> bool {
